@@ -2,7 +2,10 @@
 
 package flyt
 
-import "context"
+import (
+	"context"
+	"fmt"
+)
 
 // C10 — a flow used as a node behaves like a node.
 
@@ -98,6 +101,7 @@ func VH_C10_depth2() {
 type c10Rec struct {
 	innerCtx context.Context // the context an inner-flow node was given
 	store *SharedStore
+	errForm int
 	ids   [10]int
 	acts  [10]Action
 	fails [10]bool
@@ -133,6 +137,16 @@ func (p *c10RProbe) Post(ctx context.Context, s *SharedStore, x, e any) (Action,
 	r.fails[r.n] = f
 	r.n++
 	if f {
+		switch r.errForm {
+		// an inner node failing on its own timeout / cancelled sub-call while the run's context is
+		// alive: an inner error like any other
+		case 1:
+			vCover("inner-error-wraps-a-context-error")
+			return a, fmt.Errorf("inner call: %w", context.DeadlineExceeded)
+		case 2:
+			vCover("inner-error-wraps-a-context-error")
+			return a, fmt.Errorf("inner call: %w", context.Canceled)
+		}
 		return a, vNewErr()
 	}
 	return a, nil
@@ -143,7 +157,7 @@ func (p *c10RProbe) Post(ctx context.Context, s *SharedStore, x, e any) (Action,
 //   IN (inner): q0 -d-> q1, q0 -b-> nil, q1 -b-> q0 (loop back), q1 -d-> unconnected
 func VH_C10_flat() {
 	vUnwind(12)
-	r := &c10Rec{store: NewSharedStore()}
+	r := &c10Rec{store: NewSharedStore(), errForm: vChoice("errForm", 3)}
 	p0 := &c10RProbe{id: 0, r: r}
 	p1 := &c10RProbe{id: 1, r: r}
 	p2 := &c10RProbe{id: 2, r: r}
